@@ -66,7 +66,7 @@ def props_of(m):
         ps.add('C15')
     if base in ('check_filters', 'check_filter'):
         ps.add('C10')
-    if base == 'worker_alive':
+    if base in ('worker_alive', 'close'):
         ps.add('C13')
     query = base in ('read', 'contains', 'read_absent', 'contains_absent', 'all_wm', 'read_all', 'read_with',
                      'all_wm_absent')
@@ -92,10 +92,24 @@ class StoreEngine:
         self.action_counts = collections.Counter()
 
     # -- TLC model checking of the specification ------------------------------------------
-    def model_check(self, name, consts, max_ops, max_blob, invs=ALL_INVS, workers=8, timeout=900, spec='MCSpecUniform'):
+    def push_lemma(self, maxlen=7, maxts=3):
+        c = dict(BASE_CONSTS)
+        c.update(Keys='{1}', MaxTs=str(maxts), LMaxLen=str(maxlen))
+        r = self.run.tlc('PushLemma', cfg_text('LSpec', c, ['PushDeterministicAndSorted']), 'push-lemma', workers=4, timeout=600)
+        self.mc_states += r['distinct']
+        self.mc_transitions += r['generated']
+        self.run.log('TLC push-lemma: %d vectors, ok=%s' % (r['distinct'], r['ok']))
+        if not r['ok']:
+            excerpt = self.run.tlc_error_excerpt(r)
+            self.run.violation(self.run.prop, dict(kind='tlc-counterexample', config='push-lemma', text=excerpt),
+                               'TLC: ordered-insertion lemma fails:\n' + excerpt[:2000])
+
+    def model_check(self, name, consts, max_ops, max_blob, acts, damages=('keep', 'lose', 'stale'), invs=ALL_INVS,
+                    workers=8, timeout=900, spec='MCSpec'):
         c = dict(BASE_CONSTS)
         c.update(consts)
-        c.update(Quiesce='FALSE', Deterministic='FALSE', MaxOps=str(max_ops), MaxBlobId=str(max_blob))
+        c.update(Quiesce='FALSE', Deterministic='FALSE', MaxOps=str(max_ops), MaxBlobId=str(max_blob),
+                 MCActs=tla_str_set(acts), MCDamages=tla_str_set(damages))
         text = cfg_text(spec, c, invs, 'VIEW View\nCONSTRAINT Bound\n')
         r = self.run.tlc('MCStore', text, name, workers=workers, timeout=timeout, extra=['-coverage', '1'])
         self.mc_states += r['distinct']
@@ -118,15 +132,15 @@ class StoreEngine:
 
     # -- generation ---------------------------------------------------------------------------
     def generate(self, name, consts, genlen, acts, restarts_set='{}', preds=('always',), sample=(1, 1),
-                 simulate=None, every=True, workers=8, timeout=1800):
+                 simulate=None, every=True, suffix=0, workers=8, timeout=1800):
         c = dict(BASE_CONSTS)
         c.update(consts)
         c.update(GenLen=str(genlen), GenActs=tla_str_set(acts), GenRestarts=restarts_set,
-                 GenPreds=tla_str_set(preds), ObsEvery='TRUE' if (simulate or every) else 'FALSE', SampleMod=str(sample[1]), SampleKeep=str(sample[0]),
+                 GenPreds=tla_str_set(preds), SuffixId=str(suffix), ObsEvery='TRUE' if (simulate or every) else 'FALSE', SampleMod=str(sample[1]), SampleKeep=str(sample[0]),
                  Seed=str(self.run.seed))
         text = cfg_text('GSpec', c, ['Emit'])
         r = self.run.tlc('GenStore', text, name, workers=workers, timeout=timeout, simulate=simulate,
-                         depth=genlen + 2 if simulate else None)
+                         depth=genlen + 8 if simulate else None)
         self.run.log('TLC gen %s: %d states, %.0fs' % (name, r['distinct'], r['wall']))
         if r['errors'] or (not r['ok'] and not simulate):
             print(self.run.tlc_error_excerpt(r)[:4000])
@@ -172,6 +186,8 @@ class StoreEngine:
                         self.replayed += r['executed']
                         self.replayed_steps += r['steps']
                         self.distinct += r['distinct']
+                        for k, v in r.get('actions', {}).items():
+                            self.action_counts[k] += v
                         if r.get('sample') and len(self.run.samples) < 4:
                             self.run.samples.append(dict(harness_cfg=h, behaviour=r['sample']))
             if rc != 0 or not got_result:
@@ -213,7 +229,7 @@ class StoreEngine:
     def coverage(self):
         return dict(states=self.mc_states, transitions=self.mc_transitions,
                     traces_validated_against_impl=self.replayed,
-                    replayed_steps=self.replayed_steps,
+                    replayed_steps=self.replayed_steps, replayed_actions=dict(self.action_counts),
                     evaluations=self.replayed, distinct_nontrivial=self.distinct,
                     rule='every behaviour is a distinct action sequence generated by TLC from GenStore; '
                          'after every step all observables of the real storage are compared with the reference layer')
